@@ -36,6 +36,7 @@ type M struct {
 	nchan   int
 	Prints  []string
 	Steps   int
+	contr   bool           // the program uses contraction (split / multi-name declarations)
 	split   map[*Term]bool // memo: term may reach a split
 	fsplit  map[string]bool
 	Top     map[string]int
@@ -64,6 +65,7 @@ func New(p *Program) *M {
 			}
 		}
 	}
+	m.contr = p.UsesContraction()
 	top := m.Top
 	for _, pr := range p.Procs {
 		for _, n := range pr.Names {
@@ -292,6 +294,9 @@ func (m *M) silent(p *SP, lazyCopy bool) bool {
 		p.alias = ""
 		return true
 	case "drop":
+		if m.contr {
+			return false // an action: dropping before or after the provider is copied differs
+		}
 		c, _ := p.ch(t.X)
 		m.dropped[c] = true
 		p.t = t.Cont
@@ -514,7 +519,7 @@ func (m *M) FinalOK() (bool, string) {
 // ---- cloning and canonical keys (for the searches) ----
 
 func (m *M) clone() *M {
-	c := &M{prog: m.prog, funcs: m.funcs, bodies: m.bodies, prov: make(map[int]*SP, len(m.prov)), dropped: make(map[int]bool, len(m.dropped)), nchan: m.nchan, Steps: m.Steps, split: m.split, fsplit: m.fsplit, Top: m.Top}
+	c := &M{prog: m.prog, funcs: m.funcs, bodies: m.bodies, contr: m.contr, prov: make(map[int]*SP, len(m.prov)), dropped: make(map[int]bool, len(m.dropped)), nchan: m.nchan, Steps: m.Steps, split: m.split, fsplit: m.fsplit, Top: m.Top}
 	c.Prints = append([]string(nil), m.Prints...)
 	for k, v := range m.dropped {
 		if v {
@@ -682,6 +687,7 @@ const (
 	aCopy
 	aSplit
 	aFwd
+	aDrop
 )
 
 type action struct {
@@ -720,6 +726,10 @@ func (m *M) actions() []action {
 			if c, ok := p.ch(p.t.X); ok && m.prov[c] != nil {
 				out = append(out, action{i, aSplit, false})
 			}
+		case "drop":
+			if m.contr {
+				out = append(out, action{i, aDrop, false})
+			}
 		}
 	}
 	return out
@@ -737,6 +747,11 @@ func (m *M) apply(a action) string {
 		m.doFwd(p)
 		m.Steps++
 		m.compact()
+	case aDrop:
+		c, _ := p.ch(p.t.X)
+		m.dropped[c] = true
+		p.t = p.t.Cont
+		m.Steps++
 	default:
 		l := p.t.Lbl
 		p.t = p.t.Cont
@@ -914,4 +929,197 @@ func (m *M) Admits(sigma []string, s *Search) (bool, bool) {
 	c.Prints = nil
 	r := rec(c, 0)
 	return r, !s.Bounded
+}
+
+// AdmitsPrefix: can sigma be produced as a prefix of some run (debugging aid)?
+func (m *M) AdmitsPrefix(sigma []string, s *Search) (bool, bool) {
+	type mk struct {
+		k string
+		i int
+	}
+	memo := map[mk]bool{}
+	var rec func(c *M, i int) bool
+	rec = func(c *M, i int) bool {
+		if s.Bounded {
+			return false
+		}
+		if !c.closure(s.MaxSteps) {
+			s.Bounded = true
+			return false
+		}
+		if i == len(sigma) {
+			return true
+		}
+		k := mk{c.key(), i}
+		if r, ok := memo[k]; ok {
+			return r
+		}
+		s.States++
+		if s.States > s.MaxState {
+			s.Bounded = true
+			return false
+		}
+		res := false
+		for _, a := range c.actions() {
+			if a.kind == aPrint && c.procs[a.p].t.Lbl != sigma[i] {
+				continue
+			}
+			d := c.clone()
+			d.apply(a)
+			ni := i
+			if a.kind == aPrint {
+				ni++
+			}
+			if rec(d, ni) {
+				res = true
+				break
+			}
+		}
+		memo[k] = res
+		return res
+	}
+	c := m.clone()
+	c.Prints = nil
+	r := rec(c, 0)
+	return r, !s.Bounded
+}
+
+// Describe lists the live processes (debugging aid).
+func (m *M) Describe() string {
+	var b strings.Builder
+	for _, p := range m.procs {
+		if p.dead {
+			continue
+		}
+		fv := m.freeChans(p)
+		var fs []string
+		for v, c := range fv {
+			fs = append(fs, fmt.Sprintf("%s=%d", v, c))
+		}
+		sort.Strings(fs)
+		lbl := ""
+		if p.t.Op == "print" || p.t.Op == "sel" {
+			lbl = p.t.Lbl
+		}
+		fmt.Fprintf(&b, "  names=%v eager=%v at %s %s%s(%s) free[%s]\n", p.names, p.eager, p.t.Op, lbl, p.t.Fn, p.t.X, strings.Join(fs, " "))
+	}
+	return b.String()
+}
+
+// DeepestFailure replays sigma and returns a description of a state at the largest prefix
+// length reached, with the actions that were available there.
+func (m *M) DeepestFailure(sigma []string, s *Search) string {
+	best, bestDesc := -1, ""
+	seen := map[string]bool{}
+	var rec func(c *M, i int, path []string)
+	rec = func(c *M, i int, path []string) {
+		if s.States > s.MaxState {
+			return
+		}
+		c.closure(s.MaxSteps)
+		k := fmt.Sprintf("%d|%s", i, c.key())
+		if seen[k] {
+			return
+		}
+		seen[k] = true
+		s.States++
+		acts := c.actions()
+		if i > best {
+			best = i
+			var as []string
+			for _, a := range acts {
+				as = append(as, fmt.Sprintf("%d:%d:%s", a.p, a.kind, c.procs[a.p].t.Op+" "+c.procs[a.p].t.Lbl))
+			}
+			bestDesc = fmt.Sprintf("reached prefix %d via %v\nactions %v\n%s", i, path, as, c.Describe())
+		}
+		for _, a := range acts {
+			if a.kind == aPrint && (i >= len(sigma) || c.procs[a.p].t.Lbl != sigma[i]) {
+				continue
+			}
+			d := c.clone()
+			kinds := []string{"print", "copy", "split", "fwd", "drop"}
+			step := fmt.Sprintf("%s(%v)", kinds[a.kind], c.procs[a.p].names)
+			d.apply(a)
+			ni := i
+			if a.kind == aPrint {
+				ni++
+			}
+			rec(d, ni, append(append([]string(nil), path...), step))
+		}
+	}
+	c := m.clone()
+	rec(c, 0, nil)
+	return bestDesc
+}
+
+// AdmitsLazy: guided replay restricted to the lazy discipline (splits, drops, forwards and
+// forced copies as soon as possible, optional copies never): only the choice between
+// processes that could print the next label is searched. A positive answer is a witness
+// run; a negative one says nothing about other copy timings.
+func (m *M) AdmitsLazy(sigma []string, s *Search) bool {
+	type mk struct {
+		k string
+		i int
+	}
+	memo := map[mk]bool{}
+	var rec func(c *M, i int) bool
+	rec = func(c *M, i int) bool {
+		if s.Bounded {
+			return false
+		}
+		// run everything that is not a print
+		for {
+			if !c.closure(s.MaxSteps) {
+				s.Bounded = true
+				return false
+			}
+			done := false
+			for _, a := range c.actions() {
+				if a.kind == aPrint || (a.kind == aCopy && !a.forced) {
+					continue
+				}
+				c.apply(a)
+				done = true
+				break
+			}
+			if !done {
+				break
+			}
+		}
+		var prints []action
+		for _, a := range c.actions() {
+			if a.kind == aPrint {
+				prints = append(prints, a)
+			}
+		}
+		if i == len(sigma) {
+			return len(prints) == 0
+		}
+		k := mk{c.key(), i}
+		if r, ok := memo[k]; ok {
+			return r
+		}
+		s.States++
+		if s.States > s.MaxState {
+			s.Bounded = true
+			return false
+		}
+		res := false
+		for _, a := range prints {
+			if c.procs[a.p].t.Lbl != sigma[i] {
+				continue
+			}
+			d := c.clone()
+			d.apply(a)
+			if rec(d, i+1) {
+				res = true
+				break
+			}
+		}
+		memo[k] = res
+		return res
+	}
+	c := m.clone()
+	c.Prints = nil
+	return rec(c, 0) && !s.Bounded
 }
